@@ -39,7 +39,7 @@ def gen(seed, tier):
         if rng.random() < 0.3:
             # any callable will do: a partial, a bound method, a callable instance, a plain callable
             # handing back the coroutine
-            payloads[-1]["callable"] = rng.choice(["partial", "method", "instance", "unhashable-instance"] + (["lambda"] if target != "threading" else []))
+            payloads[-1]["callable"] = rng.choice(["partial", "partial-args", "method", "instance", "unhashable-instance"] + (["lambda"] if target != "threading" else []))
         ctx = rng.choice(["driver", "driver", "thread-payload", "coroutine-payload"])
         if ctx == "coroutine-payload" and (co_flavour is None or co_flavour == target):
             ctx = "driver"
@@ -52,6 +52,20 @@ def gen(seed, tier):
                 via = rng.choice(["queued", "adopt"])
                 callers[cid] = {"id": cid, "flavour": cfl, "via": via, "steps": [], "caller": True}
             callers[cid]["steps"] += [["sleep", rng.choice([0.0, 0.1, 0.3])], ["execute", pid]]
+    if rng.random() < 0.2:
+        # nested: an executed payload executes a payload of another flavour, which does the same again
+        # (a coroutine flavour at most once per chain: its loop thread is blocked by the outer call)
+        # and, as everywhere in this generator, coroutine payloads of one flavour only act as callers:
+        # blocking calls in both directions between the two loops wait for each other by construction)
+        callers_ok = ["threading"] + ([co_flavour] if co_flavour else [])
+        chain = [rng.choice(callers_ok)]
+        chain.append(rng.choice([f for f in callers_ok if f == "threading" or f not in chain]))
+        chain.append(rng.choice([f for f in FL if f == "threading" or f not in chain]))
+        for lvl, cfl_ in enumerate(chain):
+            last = rng.choice([["return", "none"], ["return", rng.choice(FALSY_VALUES + TRUTHY_VALUES)], ["raise", rng.choice(EXCEPTION_KINDS)]])
+            inner = [["execute", "n%d" % (lvl + 1)]] if lvl + 1 < len(chain) else []
+            payloads.append({"id": "n%d" % lvl, "flavour": cfl_, "via": "execute", "steps": inner + [last], "args": rng.choice(ARGS), "kwargs": rng.choice(KWARGS)})
+        dscript += [["sleep", rng.choice([0.0, 0.2])], ["execute", "n0"]]
     for c in callers.values():
         c["steps"] += [["mark", "done-" + c["id"]], ["hb", 0.25, None]]
         payloads.append(c)
